@@ -25,7 +25,9 @@ I = lambda i: ("in", i)
 def programs(n):
     P = []
     for name in O.ASSERT2:
-        for kinds in (("S", "S"), ("S", "K"), ("B", "B"), ("B", "K")):
+        for kinds in (("S", "S"), ("S", "K"), ("B", "B"), ("B", "K"), ("B", "S")):
+            # (S, B) is not an instance: LinComb.assert_xx(LinCombBool) is refused for every value
+            # ("Wrong type for LinComb"), a type refusal and not an answer about the relation
             P.append({"expr": ("op", name, I(0), I(1)), "kinds": list(kinds)})
     for name in O.ASSERT1:
         P.append({"expr": ("op", name, I(0)), "kinds": ["S"]})
